@@ -69,20 +69,23 @@ RpVerdict(e) ==
      ELSE <<"ACCEPT", "", "", RpTags(e)>>
 
 \* ---- cross and inter-system ----------------------------------------------------
-XT(e, s) == IF e.emb = 1 THEN Embed(s, 2, 1) ELSE Scalar(s)
+XT(e, s, tau) == IF e.emb = 1 THEN Embed(s, 2, tau) ELSE Scalar(s)
 RecOf(e, A, B) == IF e.mode = "thr"
                   THEN RecFixed(e.metric, A, B, Zeros(Len(A)), Zeros(Len(B)), 1, e.pn, e.pd)
                   ELSE RecRate(e.metric, A, B, e.pn, e.pd)
 XTags(e) == "x," \o e.mode \o (IF e.emb = 1 THEN ",embedded" ELSE "")
+            \o (IF e.taux # e.tauy THEN ",unequal_delays" ELSE "")
 XVerdict(e) ==
   LET R_(c, s) == <<"REJECT", c, s, XTags(e)>>
-      X == XT(e, e.x)  Y == XT(e, e.y)
+      \* the cross plot embeds both series with its single delay, the inter-system network each with its own
+      CX == XT(e, e.x, e.ctau)  CY == XT(e, e.y, e.ctau)
+      X == XT(e, e.x, e.taux)  Y == XT(e, e.y, e.tauy)
       c == e.obs.crp  n == e.obs.isrn
   IN IF c.exc # "" THEN R_("Applicable", "CrossRecurrencePlot:" \o c.exc)
-     ELSE IF ~(c.N = Len(X) /\ c.M = Len(Y) /\ Len(c.CR) = Len(X)
-               /\ \A r \in 1..Len(X) : Len(c.CR[r]) = Len(Y)) THEN R_("Sizes", "CrossRecurrencePlot.N/M/CR")
-     ELSE IF c.CR # RecOf(e, X, Y) THEN R_("MatrixDef", "CrossRecurrencePlot.recurrence_matrix")
-     ELSE IF ~Close(c.crr, FxDiv(Total(c.CR), Len(X) * Len(Y), 1000000), Tol)
+     ELSE IF ~(c.N = Len(CX) /\ c.M = Len(CY) /\ Len(c.CR) = Len(CX)
+               /\ \A r \in 1..Len(CX) : Len(c.CR[r]) = Len(CY)) THEN R_("Sizes", "CrossRecurrencePlot.N/M/CR")
+     ELSE IF c.CR # RecOf(e, CX, CY) THEN R_("MatrixDef", "CrossRecurrencePlot.recurrence_matrix")
+     ELSE IF ~Close(c.crr, FxDiv(Total(c.CR), Len(CX) * Len(CY), 1000000), Tol)
           THEN R_("RateDef", "cross_recurrence_rate")
      ELSE IF c.lines_exc # "NotImplementedError" THEN R_("RQAApplicable", "CrossRecurrencePlot.diagline_dist")
      ELSE IF n.exc # "" THEN R_("Applicable", "InterSystemRecurrenceNetwork:" \o n.exc)
